@@ -414,11 +414,11 @@ pub(crate) struct CaseResult {
     client_done: Option<bool>,
     server_done: Option<bool>,
     server_saw_conn: bool,
-    term_c: Option<String>,
-    term_s: Option<String>,
+    pub(crate) term_c: Option<String>,
+    pub(crate) term_s: Option<String>,
     /// full text of the terminal errors (for the report only, never compared)
-    term_detail: Vec<String>,
-    counts: std::collections::BTreeMap<&'static str, u64>,
+    pub(crate) term_detail: Vec<String>,
+    pub(crate) counts: std::collections::BTreeMap<&'static str, u64>,
     virt_ms: u64,
     expected_dirs: u64,
     complete_dirs: u64,
@@ -655,6 +655,8 @@ fn run_profiles(o: &Opts, inject_only: bool) {
         let batch: Vec<u64> = ids[next..(next + par).min(ids.len())].to_vec();
         next += batch.len();
         sink.pending(&format!("cases {:?}", batch));
+        // a process abort (e.g. an allocation failure inside the stack) cannot be caught: name the cases that were running
+        eprintln!("gmq-sim {}: running cases {:?} (re-run one with --only-case)", o.prop, batch);
         let handles: Vec<_> = batch
             .iter()
             .map(|&id| {
